@@ -693,7 +693,7 @@ func writeChunkedSegment(ctx context.Context, log *slog.Logger, w http.ResponseW
 	// The rest are returned HTTP chunks as time passes.
 	// In general, we should extract all the samples and build a new one with the right fragment duration.
 	// That fragment/chunk duration is segment_duration-availabilityTimeOffset.
-	chunkDur := (a.SegmentDurMS - int(cfg.AvailabilityTimeOffsetS*1000)) * int(rep.MediaTimescale) / 1000
+	chunkDur := (a.SegmentDurMS - int(math.Round(cfg.AvailabilityTimeOffsetS*1000))) * int(rep.MediaTimescale) / 1000
 	chunks, err := chunkSegment(rep.initSeg, seg, so.meta, chunkDur)
 	if err != nil {
 		return fmt.Errorf("chunkSegment: %w", err)
